@@ -13,7 +13,7 @@ use crate::sendloop::parse_request;
 use crate::tlsx::{origin_log_take, pki, root_cert};
 use crate::util::*;
 
-fn recording_proxy(l: TcpListener, log: Arc<Mutex<Vec<Vec<u8>>>>, reply: String) {
+fn recording_proxy(l: TcpListener, log: Arc<Mutex<Vec<Vec<u8>>>>, reply: String, plain_location: String) {
     l.set_nonblocking(true).ok();
     let t0 = std::time::Instant::now();
     while t0.elapsed() < Duration::from_secs(8) {
@@ -24,6 +24,7 @@ fn recording_proxy(l: TcpListener, log: Arc<Mutex<Vec<Vec<u8>>>>, reply: String)
         s.set_nonblocking(false).ok();
         let log = log.clone();
         let reply = reply.clone();
+        let plain_location = plain_location.clone();
         std::thread::spawn(move || {
             s.set_read_timeout(Some(Duration::from_secs(3))).ok();
             let mut head = Vec::new();
@@ -35,6 +36,15 @@ fn recording_proxy(l: TcpListener, log: Arc<Mutex<Vec<Vec<u8>>>>, reply: String)
                 }
             }
             log.lock().unwrap().push(head.clone());
+            if !head.starts_with(b"CONNECT ") {
+                // a plain (absolute-form) request forwarded through the proxy: the "origin" redirects to the https URL
+                let _ = s.write_all(format!("HTTP/1.1 307 Temporary Redirect\r\nLocation: {}\r\nContent-Length: 0\r\n\r\n", plain_location).as_bytes());
+                // drain what is left of the request (a body), then close
+                s.set_read_timeout(Some(Duration::from_millis(300))).ok();
+                let mut sink = [0u8; 4096];
+                while matches!(s.read(&mut sink), Ok(n) if n > 0) {}
+                return;
+            }
             let line = String::from_utf8_lossy(&head).to_string();
             let port: u16 = line.split_whitespace().nth(1).and_then(|t| t.rsplit(':').next()).and_then(|p| p.parse().ok()).unwrap_or(0);
             let Ok(up) = TcpStream::connect_timeout(&SocketAddr::from(([127, 0, 0, 1], port)), Duration::from_secs(2)) else {
@@ -70,14 +80,25 @@ pub fn run(sc: &Value) -> Vec<String> {
         let plog = plog.clone();
         // a proxy reply with extra header fields and (optionally) delivered together with nothing else
         let reply = "HTTP/1.1 200 Connection established\r\nProxy-Agent: verif\r\n\r\n".to_string();
-        std::thread::spawn(move || recording_proxy(l, plog, reply));
+        let loc = format!("https://good.test:{}/{}/{}?q=1", good_port, token, if hops == 2 { format!("redir-{}", good_port) } else { "final".to_string() });
+        std::thread::spawn(move || recording_proxy(l, plog, reply, loc));
     }
+    let plain_first = gb(sc, "plainFirst");
     attohttpc::verif::set_resolver(Some(Box::new(move |host, prt| if host.ends_with(".test") { Some(vec![SocketAddr::from(([127, 0, 0, 1], prt))]) } else { None })));
     let path = if hops == 2 { format!("/{}/redir-{}", token, good_port) } else { format!("/{}/final", token) };
-    let url = format!("https://good.test:{}{}?q=1#frag", good_port, path);
+    let url = if plain_first {
+        // first an http URL that goes through the proxy in absolute form and is redirected (307) to the https origin
+        format!("http://plain.test:8099/{}/start?q=1#frag", token)
+    } else {
+        format!("https://good.test:{}{}?q=1#frag", good_port, path)
+    };
     let res = catch_unwind(AssertUnwindSafe(|| {
         let purl = if proxy_user == "-" { format!("http://127.0.0.1:{}", pport) } else { format!("http://{}@127.0.0.1:{}", proxy_user, pport) };
-        let ps = attohttpc::ProxySettings::builder().https_proxy(purl.parse::<url::Url>().unwrap()).build();
+        let mut psb = attohttpc::ProxySettings::builder().https_proxy(purl.parse::<url::Url>().unwrap());
+        if plain_first {
+            psb = psb.http_proxy(purl.parse::<url::Url>().unwrap());
+        }
+        let ps = psb.build();
         let mut b = attohttpc::RequestBuilder::new(attohttpc::Method::from_bytes(gs(sc, "method").as_bytes()).unwrap(), &url)
             .proxy_settings(ps)
             .add_root_certificate(root_cert(p))
@@ -95,10 +116,20 @@ pub fn run(sc: &Value) -> Vec<String> {
     }));
     attohttpc::verif::set_resolver(None);
     std::thread::sleep(Duration::from_millis(30));
-    let connects: Vec<Value> = plog
-        .lock()
-        .unwrap()
+    let all_heads: Vec<Vec<u8>> = plog.lock().unwrap().clone();
+    let plain: Vec<Value> = all_heads
         .iter()
+        .filter(|h| !h.starts_with(b"CONNECT "))
+        .map(|h| {
+            let pr = parse_request(h);
+            json!({"method":pr.method,"form": if pr.target.contains("://") {"absolute"} else {"other"},
+                "hosts":pr.headers.iter().filter(|x| x.0 == "host").map(|x| String::from_utf8_lossy(&x.1).to_string()).collect::<Vec<_>>(),
+                "hasFragment":pr.target.contains('#')})
+        })
+        .collect();
+    let connects: Vec<Value> = all_heads
+        .iter()
+        .filter(|h| h.starts_with(b"CONNECT "))
         .map(|h| {
             let pr = parse_request(h);
             let auth = pr.headers.iter().find(|x| x.0 == "proxy-authorization").map(|x| {
@@ -128,7 +159,7 @@ pub fn run(sc: &Value) -> Vec<String> {
         Err(pn) => ("panic", panic_msg(&pn), 0),
     };
     vec![json!({"ev":"tunnelreq","id":gs(sc,"id"),"hops":hops,"proxyUser":proxy_user,"callerAuth":gb(sc,"callerAuth"),"method":gs(sc,"method"),
-        "originPort":good_port,"connects":connects,"inner":inner,"res":r,"kind":kind,"status":status,"backend":crate::tlsx::backend()})
+        "originPort":good_port,"connects":connects,"inner":inner,"plain":plain,"plainFirst":plain_first,"res":r,"kind":kind,"status":status,"backend":crate::tlsx::backend()})
     .to_string()]
 }
 
@@ -140,6 +171,8 @@ pub fn generate() -> Vec<Value> {
             for auth in [false, true] {
                 for method in ["GET", "POST"] {
                     out.push(json!({"id":format!("tq-{}", id),"hops":hops,"proxyUser":user,"callerAuth":auth,"method":method}));
+                    id += 1;
+                    out.push(json!({"id":format!("tq-{}", id),"hops":hops,"proxyUser":user,"callerAuth":auth,"method":method,"plainFirst":true}));
                     id += 1;
                 }
             }
